@@ -96,6 +96,11 @@ type Ipamd struct {
 // configuration `pools` (JSON list), ConfigMap kube-system/floatingip-config holding the same text (so that
 // the config poller entry point has something to read), API routes as in pkg/ipam/server.
 func NewIpamd(pools string, objs ...runtime.Object) (*Ipamd, error) {
+	return NewIpamdWith(pools, "", objs...)
+}
+
+// NewIpamdWith: as NewIpamd; a non-empty grpcAddr makes the plugin use the REAL gRPC cloud provider against that address.
+func NewIpamdWith(pools, grpcAddr string, objs ...runtime.Object) (*Ipamd, error) {
 	d := &Ipamd{}
 	for _, n := range NodeIPs {
 		d.Nodes = append(d.Nodes, Node(n[0], n[1]))
@@ -123,6 +128,7 @@ func NewIpamd(pools string, objs ...runtime.Object) (*Ipamd, error) {
 	if err := json.Unmarshal([]byte(`{"floatingips":`+pools+`}`), &conf); err != nil {
 		return nil, fmt.Errorf("pool configuration: %v", err)
 	}
+	conf.CloudProviderGRPCAddr = grpcAddr
 	p, err := schedulerplugin.NewFloatingIPPlugin(conf, ctx)
 	if err != nil {
 		return nil, err
